@@ -268,6 +268,44 @@ func runC20(c *Ctx) {
 			c.Fail("", "temporary artefact left after the cycles: "+e, e)
 		}
 	}
+	// (4b) Cleanup arrives while the start-up pass of the ticker goroutine is still downloading (slow origin): the
+	// goroutine must still end
+	{
+		w.AddList("slow", ListSpec{Serials: []int64{3}})
+		w.Do(sv("/slowcfg", "slow"))
+		saved := w.Cfg
+		w.Cfg = VCfg{Mode: "crl_only", Storage: "disk", SigMode: "verify", Interval: "1h", CRLUrls: []string{w.url("/slowcfg")}, TrustedSigners: []string{writeCertPEM(c, w.CA.Cert)}}
+		w.Delay = 120 * time.Millisecond
+		runtime.GC()
+		time.Sleep(50 * time.Millisecond)
+		gb := runtime.NumGoroutine()
+		n := 6
+		for k := 0; k < n; k++ {
+			w.Cfg.WorkDir = w.Dir
+			v, err := NewValidator(w.Cfg) // returns when Provision returns; the ticker goroutine's first pass starts now
+			if err != nil {
+				c.Fail("", fmt.Sprintf("cycle %d with a slow configured URL: provisioning failed: %v", k, err), k)
+				break
+			}
+			time.Sleep(40 * time.Millisecond)
+			if !closeWithTimeout(v) {
+				c.Fail("", fmt.Sprintf("cycle %d: Cleanup during the start-up pass did not return", k), k)
+				break
+			}
+		}
+		w.Delay = 0
+		time.Sleep(600 * time.Millisecond)
+		ga := runtime.NumGoroutine()
+		nCases += n
+		c.Count("cleanup-during-startup-pass")
+		c.Nontrivial("cleanup-during-startup-pass")
+		c.Rep.Extra["goroutines_before_overlapping_cycles"] = gb
+		c.Rep.Extra["goroutines_after_overlapping_cycles"] = ga
+		if ga > gb+3 {
+			c.Fail("", fmt.Sprintf("%d provision/cleanup cycles in which Cleanup arrives during the ticker's start-up pass grew the number of goroutines from %d to %d", n, gb, ga), map[string]int{"cycles": n, "before": gb, "after": ga})
+		}
+		w.Cfg = saved
+	}
 	// (5) a provisioning that fails half-way (a configured crl_file is missing; a configured URL serves garbage) followed by
 	// Cleanup — what Caddy does with a module whose Provision failed — releases everything as well
 	good := w.Cfg
@@ -299,5 +337,5 @@ func runC20(c *Ctx) {
 	c.Sample(map[string]interface{}{"hostile_locations": hostile[:6], "foreign": foreign, "temps": temps, "cycles": cycles, "goroutines": []int{g0, g1}})
 	c.WriteCoqSharded("cases_C20", "From Verif Require Import Base Bytes FsNames RunFs.\nOpen Scope N_scope.\n", "fscase", items, "fs_mismatches", 100)
 	c.Rep.Cases = nCases
-	c.Rep.Rule = "a sandbox directory is diffed around a validator (disk storage) whose certificates name 18 hostile distribution points (traversal, encoded separators and NUL, 10 KB, unicode, temp-pattern look-alikes, near-equal pairs), served good or garbage; restart on the same work_dir; start-up sweep over 8 foreign look-alike names and 4 temp-pattern names (files and directories); refreshes of loaded entries that meet garbage / a bad signature / a good list; provision/cleanup cycles on one work_dir (spelt with and without trailing slash, /./ and //) with goroutine count; provisioning that fails half-way followed by Cleanup and a new provisioning; location strings pairwise distinct incl. 12 near-equal ones (%2F vs /, query values, trailing slash, %41 vs A, + vs %20 vs %2B), each must bring its own store; the model's hex naming and sweep recogniser are evaluated on the same digests / names"
+	c.Rep.Rule = "a sandbox directory is diffed around a validator (disk storage) whose certificates name 18 hostile distribution points (traversal, encoded separators and NUL, 10 KB, unicode, temp-pattern look-alikes, near-equal pairs), served good or garbage; restart on the same work_dir; start-up sweep over 8 foreign look-alike names and 4 temp-pattern names (files and directories); refreshes of loaded entries that meet garbage / a bad signature / a good list; provision/cleanup cycles on one work_dir (spelt with and without trailing slash, /./ and //) with goroutine count; provisioning that fails half-way followed by Cleanup and a new provisioning; cycles in which Cleanup arrives while the ticker's start-up pass is still downloading; location strings pairwise distinct incl. 12 near-equal ones (%2F vs /, query values, trailing slash, %41 vs A, + vs %20 vs %2B), each must bring its own store; the model's hex naming and sweep recogniser are evaluated on the same digests / names"
 }
